@@ -317,7 +317,7 @@ class FakeT:
         self.loop.call_soon(self._lost, exc)
 
 
-def run_async(kind, seed, script, rt=3.0, answer=0.1, hold=0.0, stop_on_loss=False):
+def run_async(kind, seed, script, rt=3.0, answer=0.1, hold=0.0, stop_on_loss=False, made_raises=False):
     import random
     import mysensors.gateway_serial as mgs
     import mysensors.gateway_tcp as mgt
@@ -377,7 +377,17 @@ def run_async(kind, seed, script, rt=3.0, answer=0.1, hold=0.0, stop_on_loss=Fal
             gw = mgs.AsyncSerialGateway("/dev/fake", protocol_version="2.2", reconnect_timeout=rt)
         else:
             gw = mgt.AsyncTCPGateway("10.0.0.1", protocol_version="2.2", reconnect_timeout=rt)
-        gw.on_conn_made = lambda *a: log.add("MADE", len(a) == 1 and a[0] is gw)
+        made_calls = [0]
+
+        def on_made(*a):
+            log.add("MADE", len(a) == 1 and a[0] is gw)
+            made_calls[0] += 1
+            if made_raises and made_calls[0] == 1:
+                # the application's callback fails once (asyncio logs it and keeps the connection): supervision of the
+                # link must not depend on it
+                raise RuntimeError("connection-made callback raises (injected)")
+
+        gw.on_conn_made = on_made
         stopped_by_loss = {"task": None}
 
         async def stop_at_once():
@@ -395,7 +405,12 @@ def run_async(kind, seed, script, rt=3.0, answer=0.1, hold=0.0, stop_on_loss=Fal
 
         gw.on_conn_lost = on_lost
         errors = []
-        loop.set_exception_handler(lambda lp, ctx: errors.append(repr(ctx.get("exception") or ctx.get("message"))[:160]))
+        def on_loop_error(lp, ctx):
+            msg = repr(ctx.get("exception") or ctx.get("message"))[:160]
+            if "(injected)" not in msg:
+                errors.append(msg)
+
+        loop.set_exception_handler(on_loop_error)
 
         def live():
             for d in reversed(devs):
